@@ -1,9 +1,119 @@
 import OdcGeo.Model.C18
 namespace OdcGeo.C18.Drv
-open OdcGeo OdcGeo.IO
+open OdcGeo OdcGeo.IO OdcGeo.C18
+
+/-- `w<part>` or `f` -/
+def parseKind? (s : String) : Option Kind :=
+  if s = "f" then some .fin
+  else if s.startsWith "w" then ((s.drop 1).toString.toNat?).map Kind.write
+  else none
+
+def fmtId (i : Nat) : String := if i = 0 then "\"\"" else s!"id{i}"
+
+def fmtCall : Call → String
+  | .create i => s!"create={fmtId i}"
+  | .upload p i => s!"upload:{p}={fmtId i}"
+  | .complete i => s!"complete={fmtId i}"
+
+def kindOf (ks : List Kind) (t : Nat) : Kind := ks.getD t (.write 0)
+
+/-- fold the schedule, collecting the label of every scheduled step -/
+def traceLocal (cfg : Local.Cfg) : Local.State → List Nat → List String → Local.State × List String
+  | s, [], acc => (s, acc.reverse)
+  | s, t :: rest, acc => traceLocal cfg (Local.step cfg s t) rest (s!"{t}:{Local.label cfg s t}" :: acc)
+
+def fmtLocalOutcome : Local.PC → String
+  | .done => "ok"
+  | .failed => "AssertionError"
+  | _ => "running"
+
+def runLocal (fixed : Bool) (ks : List Kind) (sched : List Nat) : String :=
+  let cfg : Local.Cfg := { kind := kindOf ks, recheck := fixed }
+  let (s, labels) := traceLocal cfg Local.init sched []
+  let outs := (List.range ks.length).map (fun t => fmtLocalOutcome (s.pc t))
+  let lock := match s.lock with | none => "free" | some h => toString h
+  s!"{",".intercalate labels} ; {",".intercalate (s.calls.reverse.map fmtCall)} ; uid={fmtId s.uploadId} ; {",".intercalate outs} ; lock={lock}"
+
+def traceDist (cfg : Dist.Cfg) : Dist.State → List Nat → List String → Dist.State × List String
+  | s, [], acc => (s, acc.reverse)
+  | s, t :: rest, acc => traceDist cfg (Dist.step cfg s t) rest (s!"{t}:{Dist.label cfg s t}" :: acc)
+
+def fmtDistOutcome : Dist.PC → String
+  | .done => "ok"
+  | .failed => "AssertionError"
+  | _ => "running"
+
+def runDist (ks : List Kind) (ws : List Nat) (sched : List Nat) : String :=
+  let cfg : Dist.Cfg := { kind := kindOf ks, worker := fun t => ws.getD t 0 }
+  let (s, labels) := traceDist cfg Dist.init sched []
+  let outs := (List.range ks.length).map (fun t => fmtDistOutcome (s.pc t))
+  let nw := (ws.foldl max 0) + 1
+  let wids := (List.range nw).map (fun w => fmtId (s.wid w))
+  let lock := match s.lock with | none => "free" | some h => toString h
+  let var := match s.var with | none => "N" | some i => fmtId i
+  s!"{",".intercalate labels} ; {",".intercalate (s.calls.reverse.map fmtCall)} ; uid={",".intercalate wids} var={var} ; {",".intercalate outs} ; lock={lock}"
+
+def parseBytes (s : String) : Bytes := s.toList.map Char.toNat
+
+def fmtBytes (b : Bytes) : String := String.ofList (b.map Char.ofNat)
+
+/-- `<part>:<letters>` -/
+def parseWrite? (s : String) : Option (Nat × Bytes) :=
+  match s.splitOn ":" with
+  | [p, d] => (p.toNat?).map (fun p => (p, parseBytes d))
+  | _ => none
+
+/-- insertion sort by part number (output canonicalisation only) -/
+def insertPart (x : Nat × Bytes) : List (Nat × Bytes) → List (Nat × Bytes)
+  | [] => [x]
+  | y :: ys => if x.1 ≤ y.1 then x :: y :: ys else y :: insertPart x ys
+
+def sortParts (l : List (Nat × Bytes)) : List (Nat × Bytes) := l.foldr insertPart []
+
+def runSink (fixed : Bool) (ws : List (Nat × Bytes)) (ps : List Nat) (keep : Bool) : String :=
+  let s0 := ws.foldl Sink.write {}
+  let (s, e) := Sink.finalise fixed s0 ps keep
+  let err := match e with | none => "ok" | some e => e.toStr
+  let dst := match s.dst with | none => "N" | some b => "=" ++ fmtBytes b
+  let parts := fmtList (fun (p : Nat × Bytes) => s!"{p.1}:{fmtBytes p.2}") (sortParts s.parts)
+  s!"{err} ; dst{dst} ; parts={parts} ; dir={fmtBool s.dirExists}"
+
+def insertStr (x : String) : List String → List String
+  | [] => [x]
+  | y :: ys => if x ≤ y then x :: y :: ys else y :: insertStr x ys
 
 def run (args : List String) : Option String :=
   match args with
+  | ["local", fixed, ks, sched] => do
+    let fixed ← parseBool? fixed
+    let ks ← parseList? parseKind? ks
+    let sched ← parseList? parseNat? sched
+    pure (runLocal fixed ks sched)
+  | ["dist", ks, ws, sched] => do
+    let ks ← parseList? parseKind? ks
+    let ws ← parseList? parseNat? ws
+    let sched ← parseList? parseNat? sched
+    pure (runDist ks ws sched)
+  | ["sink", fixed, ws, ps, keep] => do
+    let fixed ← parseBool? fixed
+    let ws ← parseList? parseWrite? ws
+    let ps ← parseList? parseNat? ps
+    let keep ← parseBool? keep
+    pure (runSink fixed ws ps keep)
+  | ["path", parent, name, base, part] => do
+    let base ← parseOpt? some base
+    let part ← parseNat? part
+    pure (partPath parent name base part)
+  | ["limits", "sink", fixed, a, b, c, d] => do
+    let fixed ← parseBool? fixed
+    let a ← parseOpt? parseInt? a; let b ← parseOpt? parseInt? b
+    let c ← parseOpt? parseInt? c; let d ← parseOpt? parseInt? d
+    let kw : LimitKw := { minWriteSz := a, maxWriteSz := b, minPart := c, maxPart := d }
+    pure (fmtList (fun x => s!"{x.name}={sinkLimit fixed kw x}") Acc.all)
+  | ["limits", "s3"] =>
+    pure (fmtList (fun x => s!"{x.name}={s3Limit x}") Acc.all)
+  | ["accessors"] =>
+    pure (fmtList id ((Acc.all.map Acc.name).foldr insertStr []))
   | _ => none
 
 end OdcGeo.C18.Drv
